@@ -8,7 +8,7 @@ use serde_json::json;
 
 pub struct C09;
 
-const CHARS: [char; 20] = ['a', 'b', 'c', 'x', 'y', 'z', 'A', 'Z', '0', '9', '#', '~', '`', 'q', 'é', 'ß', '日', '本', '-', '.'];
+const CHARS: [char; 24] = ['a', 'b', 'c', 'x', 'y', 'z', 'A', 'Z', '0', '9', '#', '~', '`', 'q', 'é', 'ß', '日', '本', '-', '.', '\u{1f600}', '\u{10348}', '\u{ffff}', '\u{10ffff}'];
 
 fn strip_trailing_empty(mut v: Vec<String>) -> Vec<String> {
     while v.last().map(|s| s.is_empty()).unwrap_or(false) {
